@@ -17,9 +17,13 @@ before the first callback runs), or one timer firing.
 namespace TornadoModel.C10
 
 structure Addr where
-  idx : Nat       -- position in `addrinfo`
+  idx : Nat       -- position in `addrinfo` (the identity of the list ENTRY)
   fam : Nat       -- address family
   sync : Bool     -- connecting to it fails synchronously
+  name : Nat      -- the socket address: two entries denote the same address iff `fam` and `name` agree.
+                  -- The connector never compares addresses (`split` keeps every entry, `remaining =
+                  -- len(addrinfo)`), so nothing in this file reads `name`: a repeated address is attempted
+                  -- once per entry.  Only the specification (`Spec.lean`) looks at it.
   deriving Repr, BEq, DecidableEq
 
 /-- state of a stream's connect future -/
@@ -220,8 +224,12 @@ def trace (st : St) : List Event → List St
   | [] => []
   | e :: es => step st e :: trace (step st e) es
 
-/-- number the addresses of an `addrinfo` list given as (family, sync) pairs -/
+/-- number the addresses of an `addrinfo` list given as (family, sync) pairs; pairwise different addresses -/
 def mkAddrs (l : List (Nat × Bool)) : List Addr :=
-  (List.range l.length).zip l |>.map (fun (i, (f, s)) => ⟨i, f, s⟩)
+  (List.range l.length).zip l |>.map (fun (i, (f, s)) => ⟨i, f, s, i⟩)
+
+/-- an `addrinfo` list given as (family, address, sync) triples: entries may repeat an address -/
+def mkNamed (l : List (Nat × Nat × Bool)) : List Addr :=
+  (List.range l.length).zip l |>.map (fun (i, (f, n, s)) => ⟨i, f, s, n⟩)
 
 end TornadoModel.C10
